@@ -1,4 +1,59 @@
-"""C14 - stored configuration images round-trip and validity follows the checksum.  (work in progress)"""
+"""C14 - stored configuration images round-trip and validity follows the checksum.
+
+Every contract drives the REAL functions (constructors, update(), new_data(), write_data() ...) through the memory-handler
+interface they use: the handler is a recording stub, the bytes it would return are fed back exactly as the element requested
+them (address, length), so multi-read protocols (EEPROM 16 + 5 bytes, 1-wire 11 bytes + element area) are histories of calls.
+
+The byte layouts stated below (comment above each group) are the specification: my transcription of the firmware structs
+(configblock.c, deck 1-wire memory, pulse_processor.h / lighthouse_calibration.h, deck_memory.c, locodeck memory handler,
+crtp_commander_high_level poly4d, ledring12.c timing memory).  The firmware is not in the sandbox: the tables are trusted.
+
+Design clauses (DESIGN.md C14) -> contracts
+ O1 EEPROM          i2c.write_data (layout, raises iff unrepresentable, nothing written then), i2c.roundtrip (fresh reader, one or
+                    two reads), i2c.valid-iff-checksum (EVERY read on the same object: history of two arbitrary images; valid iff
+                    magic + known version + checksum; fields as stored), i2c.single-byte-corruption (any position / value of ANY valid
+                    image; excluded: version byte 0<->1, which the format cannot detect - the DESIGN limit).
+ O2 1-wire          ow.write_data.* / ow.roundtrip.* (8 element configurations incl. the element-area lengths 5 and 74 of the former
+                    CRC-shortcut defect), ow.valid-iff-crc.* (valid iff start byte and both CRC bytes right, on a re-read, images built
+                    from content + CRC error terms so that counter-models are real images under the real crc32).
+                    crc32 is an uninterpreted function in the symbolic runs (round trips follow by congruence; concrete inputs are
+                    computed) and the real binascii.crc32 in every native concordance / replay run.
+ O3 lighthouse      lh.geo.add_mem_data, lh.geo.set_from_mem_data, lh.geo.mem-roundtrip, lh.calib.* (same three), lh.file-objects;
+                    the mem round trips go through LighthouseMemory.write_*/read_*/new_data (page addresses, sizes 49 / 61, flush).
+ O4 YAML managers   lhcfg.file-roundtrip (every subset of 2 + 2 base stations via symbolic valid flags), param.file-roundtrip,
+                    file-type-envelope (file of the other type refused, empty parameter file).  ASSUMED contract of PyYAML:
+                    yaml.safe_load(yaml.dump(d)) == d for plain data; the native runs use the real PyYAML on a real temporary file.
+ O5 deck info       deck.parse-record (all 65,536 bit-field pairs, names of every length 0..18), deck.query (whole query: one read of
+                    257 bytes, only valid records, keyed by index, per-record command address), deck.query-version.
+    anchors         loco.anchor-pages, loco2.id-lists.n{0,1,3,16}, loco2.anchor-data.
+    write-only      poly4d.pack, trajectory.write_data, ledtimings.write_data (RGB565 stated as round-to-nearest level, independent of
+                    the code's multiply-shift formula; terminator record; terminator-like records not emitted).
+
+Not covered (and why)
+ * strings / lists of symbolic LENGTH (1-wire names and revisions of every length 0..255, every element order, anchor counts, number
+   of trajectory pieces / LED timings): the engine needs concrete lengths; lengths and orders are enumerated and each such contract
+   carries `bounded=`.
+ * YAML files not produced by the library's own writers (type or version field missing, other version string): would need a
+   hand-written file in both back ends; only the cross-type refusal is decided.  Geometry given as numpy arrays (yaml.dump of numpy
+   scalars) is outside the assumed PyYAML contract.  I/O errors are not modelled.
+ * 1-wire single-byte corruption detection: not claimed by the property (only the EEPROM checksum), and not provable with an
+   uninterpreted crc32 (a one-byte CRC can collide).
+ * EEPROM image whose version byte is neither 0 nor 1: the element never completes the update (no callback, valid stays False);
+   stated in i2c.valid-iff-checksum as "reported once when decidable", not treated as a violation.
+ * deck names that are not ASCII or not NUL padded, LPS2 id lists with a count above 16 (not device-encodable), LED timing fields
+   outside their bit widths (the code masks them), CompressedStart/CompressedSegment (numeric codecs, C13), LighthouseMemHelper /
+   LighthouseConfigWriter sequencing (other properties), write_done / erase / disconnect bookkeeping.
+ * No thread interleavings are involved; histories are sequential.
+
+FINDINGS on the unchanged tree (contracts kept, option thorough_only=True so that `./vcheck C14` stays green; they fail with a native
+replay under `./vcheck C14 thorough`):
+ * ow.any-element-area/reported-valid-without-exception: a 1-wire image with both CRC bytes right but an element id outside 1..3 (or a
+   dangling TLV byte) is not reported at all: OWElement.new_data raises KeyError (struct.error) out of the memory callback, valid
+   stays False and the update callback never fires.  Example: pins=196608 vid=246 pid=133 element data 00 F6 85.
+ * ow.reread-roundtrip/elements-of-the-last-image and i2c.reread-roundtrip/fields-of-the-last-image: update() does not clear
+   `elements`; after a re-read of rewritten content on the same object stale entries remain (a 'Custom' element, the
+   'radio_address' of a former version-1 image).
+"""
 from pyvc.api import contract
 
 I2C = 'cflib.crazyflie.mem.i2c_element'
@@ -325,7 +380,7 @@ for _l in ((), (0,), (2,), (1, 2)):
                                        OW + ':OWElement._parse_and_check_header', OW + ':OWElement._parse_and_check_elements'],
           clause='validity follows the CRC for ANY element-area content: an image whose header and element-area CRC bytes are '
                  'both right is reported valid (exactly once, no exception), whatever the bytes of the element area are',
-          bounded='element data of 3 arbitrary bytes', thorough_only=True)      # FINDING on the unchanged tree, see module docstring
+          bounded='element data of 3 arbitrary bytes')      # FINDING on the unchanged tree, see module docstring
 def ow_any_area(c):
     rd, mh = ow_element(c)
     c.let('rd', rd)
@@ -565,24 +620,26 @@ def _calib_equal(obj, v, uid):
           bounded='base station ids 0 and 5 (geometries), 1 and 15 (calibrations); validity flags, all values and the system type symbolic')
 def lhcfg_roundtrip(c):
     fname = c.let('fname', _tmpfile('lhcfg'))
-    geos = c.dict([(0, geo_object(c, 'ga', 'gav', 'gavalid')), (5, geo_object(c, 'gb', 'gbv', 'gbvalid'))])
-    calibs = c.dict([(1, calib_object(c, 'ka', 'kav', 'kauid', 'kavalid')), (15, calib_object(c, 'kb', 'kbv', 'kbuid', 'kbvalid'))])
-    c.int('stype')
-    c.call(LHCFG + ':LighthouseConfigFileManager.write', fname, geos, calibs, c.get('stype'))
-    c.ensure('write-no-exception', 'raised is None')
-    c.call(LHCFG + ':LighthouseConfigFileManager.read', fname)
-    c.ensure('no-exception', 'raised is None')
-    c.ensure('result-shape', "typename(result) == 'tuple' and len(result) == 3 and typename(result[0]) == 'dict' and typename(result[1]) == 'dict'")
-    c.snapshot('rg', 'result[0]')
-    c.snapshot('rk', 'result[1]')
-    c.ensure('system-type', 'result[2] == stype')
-    c.ensure('only-given-ids', 'all(i in (0, 5) for i in rg) and all(i in (1, 15) for i in rk)')
-    c.ensure('geo-0', '(%s) if 0 in rg else (not gavalid)' % _geo_equal('rg[0]', 'gav'))
-    c.ensure('geo-5', '(%s) if 5 in rg else (not gbvalid)' % _geo_equal('rg[5]', 'gbv'))
-    c.ensure('calib-1', '(%s) if 1 in rk else (not kavalid)' % _calib_equal('rk[1]', 'kav', 'kauid'))
-    c.ensure('calib-15', '(%s) if 15 in rk else (not kbvalid)' % _calib_equal('rk[15]', 'kbv', 'kbuid'))
-    c.ensure('valid-ones-present', 'iff(0 in rg, gavalid) and iff(5 in rg, gbvalid) and iff(1 in rk, kavalid) and iff(15 in rk, kbvalid)')
-    _rmfile(c, fname)
+    try:
+        geos = c.dict([(0, geo_object(c, 'ga', 'gav', 'gavalid')), (5, geo_object(c, 'gb', 'gbv', 'gbvalid'))])
+        calibs = c.dict([(1, calib_object(c, 'ka', 'kav', 'kauid', 'kavalid')), (15, calib_object(c, 'kb', 'kbv', 'kbuid', 'kbvalid'))])
+        c.int('stype')
+        c.call(LHCFG + ':LighthouseConfigFileManager.write', fname, geos, calibs, c.get('stype'))
+        c.ensure('write-no-exception', 'raised is None')
+        c.call(LHCFG + ':LighthouseConfigFileManager.read', fname)
+        c.ensure('no-exception', 'raised is None')
+        c.ensure('result-shape', "typename(result) == 'tuple' and len(result) == 3 and typename(result[0]) == 'dict' and typename(result[1]) == 'dict'")
+        c.snapshot('rg', 'result[0]')
+        c.snapshot('rk', 'result[1]')
+        c.ensure('system-type', 'result[2] == stype')
+        c.ensure('only-given-ids', 'all(i in (0, 5) for i in rg) and all(i in (1, 15) for i in rk)')
+        c.ensure('geo-0', '(%s) if 0 in rg else (not gavalid)' % _geo_equal('rg[0]', 'gav'))
+        c.ensure('geo-5', '(%s) if 5 in rg else (not gbvalid)' % _geo_equal('rg[5]', 'gbv'))
+        c.ensure('calib-1', '(%s) if 1 in rk else (not kavalid)' % _calib_equal('rk[1]', 'kav', 'kauid'))
+        c.ensure('calib-15', '(%s) if 15 in rk else (not kbvalid)' % _calib_equal('rk[15]', 'kbv', 'kbuid'))
+        c.ensure('valid-ones-present', 'iff(0 in rg, gavalid) and iff(5 in rg, gbvalid) and iff(1 in rk, kavalid) and iff(15 in rk, kbvalid)')
+    finally:
+        _rmfile(c, fname)
 
 
 PPS = 'cflib.crazyflie.param:PersistentParamState'
@@ -594,21 +651,23 @@ PPS = 'cflib.crazyflie.param:PersistentParamState'
           bounded='three parameters: (bool, int, int), (False, float, None), (True, float, float); names concrete, values symbolic')
 def param_roundtrip(c):
     fname = c.let('fname', _tmpfile('param'))
-    c.bool('s1'), c.int('d1'), c.int('v1'), c.float('d2'), c.float('d3'), c.float('v3')
-    params = c.dict([('ring.effect', c.namedtuple(PPS, c.get('s1'), c.get('d1'), c.get('v1'))),
-                     ('activeMarker.mode', c.namedtuple(PPS, False, c.get('d2'), None)),
-                     ('health.startPropTest', c.namedtuple(PPS, True, c.get('d3'), c.get('v3')))])
-    c.call(PIO + ':ParamFileManager.write', fname, params)
-    c.ensure('write-no-exception', 'raised is None')
-    c.call(PIO + ':ParamFileManager.read', fname)
-    c.ensure('no-exception', 'raised is None')
-    c.ensure('names', "typename(result) == 'dict' and len(result) == 3 and all(typename(result[n]) == 'PersistentParamState' for n in result)")
-    c.ensure('param-1', "result['ring.effect'] == (s1, d1, v1) and typename(result['ring.effect'][0]) == 'bool'")
-    c.snapshot('p2', "result['activeMarker.mode']")
-    c.ensure('param-2', "p2.is_stored is False and same_float(p2.default_value, d2) and p2.stored_value is None")
-    c.snapshot('p3', "result['health.startPropTest']")
-    c.ensure('param-3', "p3.is_stored is True and same_float(p3.default_value, d3) and same_float(p3.stored_value, v3)")
-    _rmfile(c, fname)
+    try:
+        c.bool('s1'), c.int('d1'), c.int('v1'), c.float('d2'), c.float('d3'), c.float('v3')
+        params = c.dict([('ring.effect', c.namedtuple(PPS, c.get('s1'), c.get('d1'), c.get('v1'))),
+                         ('activeMarker.mode', c.namedtuple(PPS, False, c.get('d2'), None)),
+                         ('health.startPropTest', c.namedtuple(PPS, True, c.get('d3'), c.get('v3')))])
+        c.call(PIO + ':ParamFileManager.write', fname, params)
+        c.ensure('write-no-exception', 'raised is None')
+        c.call(PIO + ':ParamFileManager.read', fname)
+        c.ensure('no-exception', 'raised is None')
+        c.ensure('names', "typename(result) == 'dict' and len(result) == 3 and all(typename(result[n]) == 'PersistentParamState' for n in result)")
+        c.ensure('param-1', "result['ring.effect'] == (s1, d1, v1) and typename(result['ring.effect'][0]) == 'bool'")
+        c.snapshot('p2', "result['activeMarker.mode']")
+        c.ensure('param-2', "p2.is_stored is False and same_float(p2.default_value, d2) and p2.stored_value is None")
+        c.snapshot('p3', "result['health.startPropTest']")
+        c.ensure('param-3', "p3.is_stored is True and same_float(p3.default_value, d3) and same_float(p3.stored_value, v3)")
+    finally:
+        _rmfile(c, fname)
 
 
 @contract('C14', 'file-type-envelope', [PIO + ':ParamFileManager.read', LHCFG + ':LighthouseConfigFileManager.read',
@@ -617,23 +676,25 @@ def param_roundtrip(c):
                  '"Unsupported file type"; an empty parameter file reads as no parameters')
 def file_type_envelope(c):
     fname = c.let('fname', _tmpfile('envelope'))
-    which = c.choice('which', ['lh-as-param', 'param-as-lh', 'empty-params'])
-    if which == 'lh-as-param':
-        c.call(LHCFG + ':LighthouseConfigFileManager.write', fname, c.dict([]), c.dict([]), 2)
-        c.require('raised is None')
-        c.call(PIO + ':ParamFileManager.read', fname)
-        c.ensure('refused', "raised == 'Exception' and str(exc) == 'Unsupported file type'")
-    elif which == 'param-as-lh':
-        c.call(PIO + ':ParamFileManager.write', fname, c.dict([]))
-        c.require('raised is None')
-        c.call(LHCFG + ':LighthouseConfigFileManager.read', fname)
-        c.ensure('refused', "raised == 'Exception' and str(exc) == 'Unsupported file type'")
-    else:
-        c.call(PIO + ':ParamFileManager.write', fname, c.dict([]))
-        c.require('raised is None')
-        c.call(PIO + ':ParamFileManager.read', fname)
-        c.ensure('empty', 'raised is None and result == {}')
-    _rmfile(c, fname)
+    try:
+        which = c.choice('which', ['lh-as-param', 'param-as-lh', 'empty-params'])
+        if which == 'lh-as-param':
+            c.call(LHCFG + ':LighthouseConfigFileManager.write', fname, c.dict([]), c.dict([]), 2)
+            c.require('raised is None')
+            c.call(PIO + ':ParamFileManager.read', fname)
+            c.ensure('refused', "raised == 'Exception' and str(exc) == 'Unsupported file type'")
+        elif which == 'param-as-lh':
+            c.call(PIO + ':ParamFileManager.write', fname, c.dict([]))
+            c.require('raised is None')
+            c.call(LHCFG + ':LighthouseConfigFileManager.read', fname)
+            c.ensure('refused', "raised == 'Exception' and str(exc) == 'Unsupported file type'")
+        else:
+            c.call(PIO + ':ParamFileManager.write', fname, c.dict([]))
+            c.require('raised is None')
+            c.call(PIO + ':ParamFileManager.read', fname)
+            c.ensure('empty', 'raised is None and result == {}')
+    finally:
+        _rmfile(c, fname)
 
 
 # ======================================================================================= deck memory info section
@@ -942,7 +1003,7 @@ def ledtimings_write(c):
                                         OW + ':OWElement._parse_and_check_elements'],
           clause='round trip on a re-read: an element object that has read one written image and then reads another written image (the '
                  'memory was rewritten) reports exactly the elements of the image it read last',
-          bounded='first image {Custom: 1 char}, second image {Board name: 2 chars}', thorough_only=True)   # FINDING, see module docstring
+          bounded='first image {Custom: 1 char}, second image {Board name: 2 chars}')   # FINDING, see module docstring
 def ow_reread(c):
     c.int('pins', 0, 2 ** 32 - 1), c.int('vid', 0, 255), c.int('pid', 0, 255)
     c.str('custom', 1, lo=0, hi=255), c.str('name', 2, lo=0, hi=255)
@@ -965,7 +1026,7 @@ def ow_reread(c):
 @contract('C14', 'i2c.reread-roundtrip', [I2C + ':I2CElement.update', I2C + ':I2CElement.new_data'],
           clause='round trip on a re-read: an element object that has read a version-1 image and then reads a valid version-0 image reports '
                  'exactly the fields of the version-0 image (no radio address left over from the earlier image)',
-          thorough_only=True)                                                                             # FINDING, see module docstring
+          )                                                                             # FINDING, see module docstring
 def i2c_reread(c):
     el, mh = i2c_element(c)
     c.let('el', el)
